@@ -31,7 +31,13 @@ KINDS = {
     "badres": ("value", "unpicklable-result"),    # remote only: result cannot be pickled
     "bigres": ("value", "oversize-result"),       # remote only: result exceeds MAX_MESSAGE_SIZE
     "funlock": ("value", "lock-handler-crash"),   # force_unlock() on an unlocked object
+    # values that the sender can pickle but the receiver cannot unpickle (remote only): the receiving side has to turn
+    # this into an outcome (on the current source: it drops the connection, every pending call ends with a delivery error)
+    "unlexc": ("exc", "unloadable-reply"),        # the method raises an exception that cannot be rebuilt by the caller's side
+    "unlres": ("value", "unloadable-reply"),      # the method returns such a value
+    "unlarg": ("value", "unloadable-request"),    # an argument that the object's side cannot rebuild
 }
+UNLOADABLE = {"unloadable-reply", "unloadable-request"}
 FAULTS = ["none", "remove", "stopB", "stopA", "disc"]
 FAULT_PROG = {
     "none": [],
@@ -55,6 +61,23 @@ def project_fault(fault, cls):
     return fault if cls == "o2rem" else "none"
 
 _probe_cls = None
+
+
+class UnloadableError(Exception):
+    """pickles (args = (a,)) but cannot be unpickled: the constructor needs two arguments"""
+    def __init__(self, a, b):
+        super().__init__(a)
+        self.b = b
+
+
+def _unloadable_ctor(*a):
+    raise RuntimeError("this value cannot be rebuilt on the receiving side")
+
+
+class UnloadableValue:
+    """pickles fine; unpickling raises in the receiving context"""
+    def __reduce__(self):
+        return (_unloadable_ctor, (1,))
 
 
 class ProbeBaseExc(BaseException):
@@ -93,6 +116,18 @@ def _probe_class():
                 return b"x" * (2 * SMALL_MAX)
 
             @rpc_method
+            def unlexc(self, x):
+                raise UnloadableError(("unlexc", x), 1)
+
+            @rpc_method
+            def unlres(self, x):
+                return UnloadableValue()
+
+            @rpc_method
+            def unlarg(self, x, y=None):
+                return ("unlarg", x)
+
+            @rpc_method
             def slow(self, x, dur):
                 # occupies the worker for `dur` seconds of virtual time
                 from harness import detsched as D
@@ -122,9 +157,12 @@ def gen_scenario(rng, allow_defects=True):
         c["kind"] = defect_kind
         if defect_kind != "funlock":
             c["place"] = "rem"
-    if fault == "stopA":
-        # a caller whose own context stops must not be the scenario's main thread: callers of A are managed threads
-        pass
+    if not defect_kind and not prelocked and rng.random() < 0.12:
+        c = rng.choice(calls)
+        c["kind"] = rng.choice(["unlexc", "unlres", "unlarg"])
+        if rng.random() < 0.6:
+            c["place"] = "rem"
+            fault = "none"
     threads = [[] for _ in range(nthreads)]
     for c in calls:
         threads[rng.randrange(nthreads)].append(c)
@@ -247,6 +285,12 @@ def run_real(scn, seed, policy="weighted", change_points=None, probe_after=True)
             return tgt.badres(i)
         if k == "bigres":
             return tgt.bigres(i)
+        if k == "unlexc":
+            return tgt.unlexc(i)
+        if k == "unlres":
+            return tgt.unlres(i)
+        if k == "unlarg":
+            return tgt.unlarg(i, UnloadableValue() if c["place"] == "rem" else None)
         if k == "is_locked":
             if c["blocking"]:
                 return proxy.is_locked()
@@ -271,13 +315,17 @@ def run_real(scn, seed, policy="weighted", change_points=None, probe_after=True)
             if k == "boom" and e.args == (("boom", i),):
                 return "e"
             return f"x:ValueError{e.args!r}"[:60]
+        except UnloadableError as e:
+            if k == "unlexc" and e.args == (("unlexc", i),):
+                return "e"
+            return f"x:UnloadableError{e.args!r}"[:60]
         except ProbeBaseExc as e:
             if k == "bexc" and e.args == (("bexc", i),):
                 return "e"
             return f"x:ProbeBaseExc{e.args!r}"[:60]
         except BaseException as e:  # noqa
             return f"x:{type(e).__name__}"
-        exp = {"f": ("f", i * 2), "badarg": ("badarg", i)}
+        exp = {"f": ("f", i * 2), "badarg": ("badarg", i), "unlarg": ("unlarg", i)}
         if k in exp and v != exp[k]:
             return f"crosstalk:{v!r}"[:60]
         if k == "is_locked" and v is not bool(scn["prelocked"]):
@@ -286,6 +334,8 @@ def run_real(scn, seed, policy="weighted", change_points=None, probe_after=True)
             return f"crosstalk:{v!r}"[:60]
         if k == "bigres" and v != b"x" * (2 * SMALL_MAX):
             return "crosstalk:bigres"
+        if k == "unlres" and type(v).__name__ != "UnloadableValue":
+            return f"crosstalk:{v!r}"[:60]
         return "v"
 
     def body(w):
@@ -298,6 +348,7 @@ def run_real(scn, seed, policy="weighted", change_points=None, probe_after=True)
             locker = srv.get_rpc_object_by_name("srv.o")
             locker.lock()
         threads = []
+        to_spawn = []       # every proxy is made before any caller runs (a caller may cost the client its connection)
         for ti, prog in enumerate(scn["threads"]):
             # one proxy per caller thread and placement
             p_l = srv.get_rpc_object_by_name("srv.o")
@@ -315,7 +366,7 @@ def run_real(scn, seed, policy="weighted", change_points=None, probe_after=True)
                         pending.append((c, fut))
                 for c, fut in pending:
                     vec[c["id"]] = classify(c, fut.wait)
-            threads.append(w.spawn(caller, f"caller{ti}"))
+            to_spawn.append((caller, f"caller{ti}"))
         if by:
             srv.make_rpc_object("o2", _probe_class())
             cli2 = w.context("cli2")
@@ -333,7 +384,7 @@ def run_real(scn, seed, policy="weighted", change_points=None, probe_after=True)
                         fut = do_call(p_b, c)
                         bfuts[b["id"]] = fut
                         bvec[b["id"]] = classify(c, fut.wait)
-                threads.append(w.spawn(bystander, f"by{b['id']}"))
+                to_spawn.append((bystander, f"by{b['id']}"))
         noise = scn.get("noise")
         if noise:
             from qmi.core.exceptions import QMI_RpcTimeoutException
@@ -353,7 +404,10 @@ def run_real(scn, seed, policy="weighted", change_points=None, probe_after=True)
                     nres.append("l" if "locked" in str(e) else f"x:{type(e).__name__}")
                 except BaseException as e:  # noqa
                     nres.append(f"x:{type(e).__name__}")
-            threads.insert(0, w.spawn(noisy, "noise"))
+            to_spawn.insert(0, (noisy, "noise"))
+        for fn_, nm_ in to_spawn:
+            threads.append(w.spawn(fn_, nm_))
+        if noise:
             if noise["delay"]:
                 D.SCHED.yield_point("fault.delay", blocked_on=lambda: False, timeout=noise["delay"])
         f = scn["fault"]
@@ -507,6 +561,14 @@ def oracle(scn, r):
             out.append(("other-call's-outcome", f"a call received {v}"))
         elif v.startswith("x:"):
             out.append((f"unexpected-outcome:{v[2:].split('(')[0]}", f"outcome {v} is neither own value/exception, locked nor delivery error"))
+    unl = bool(UNLOADABLE & set(feats))
+    if unl:
+        for t in scn["threads"]:
+            for c in t:
+                if KINDS[c["kind"]][1] in UNLOADABLE and c["place"] == "rem":
+                    v = r["raw"][c["id"]]
+                    if v in ("v", "e") or v.startswith("crosstalk"):
+                        out.append(("unloadable-value-delivered", f"call {c} whose value cannot be rebuilt on the receiving side ended with {v}"))
     bnat = {"f": "v", "boom": "e"}
     for b, v in zip(scn.get("by", []), r.get("braw", [])):
         pf = project_fault(scn["fault"], b["cls"])
@@ -519,7 +581,7 @@ def oracle(scn, r):
             out.append(("call-waits-forever:" + cause, f"bystander call {b} has no outcome (fault {scn['fault']} seen as {pf}); "
                                                        f"scheduler: {str(r['deadlock'])[:120]}"))
         elif pf == "none" and v != ("l" if (scn["prelocked"] and b["cls"] == "cli2") else bnat[b["kind"]]) \
-                and not (ACTIVE_DEFECTS & set(feats)):
+                and not (ACTIVE_DEFECTS & set(feats)) and not (unl and b["cls"] == "o2rem" and v == "d"):
             out.append(("bystander-affected:" + b["cls"], f"call {b} to another object / over another connection than the one hit by "
                                                            f"fault {scn['fault']} ended with {v}, expected {bnat[b['kind']]}"))
     if r.get("late") is not None:
@@ -696,6 +758,8 @@ class C01(Prop):
     driver = "drv_c01"
     modelled_not_verified = [
         "the send/stop lock of MessageRouter (de03010) is read from the AST (with-blocks around the checks, the hand-over and the clearing of _socket_manager); that threading.Lock gives mutual exclusion is a premise",
+        "values that pickle on the sending side but cannot be rebuilt on the receiving side are outside the model (oracle only: "
+        "every call still gets exactly one outcome, the affected call a delivery error)",
         "the model has one object and one peer connection; calls to a second object and over a second client connection "
         "('bystanders') are checked on the real code against an independent copy of the model under the projected fault",
         "pickle: a value either serialises or raises; asyncio: call_soon_threadsafe is FIFO, callbacks queued after stop() are dropped",
@@ -735,7 +799,10 @@ class C01(Prop):
                 if r["deadlock"]:
                     res.count("deadlocks_observed")
                 res.traces_validated += 1
-                if r["vec"] not in allowed:
+                unl = bool(UNLOADABLE & set(features(scn)))
+                if unl:
+                    res.count("unloadable_value_runs")
+                if r["vec"] not in allowed and not unl:
                     res.broken.append(Broken("correspondence", "Rpc.explore vs real outcome vector",
                                              f"real {r['vec']} not in model set {sorted(allowed)} (cfg {cfgbits})",
                                              case={"scn": scn, "seed": seed, "policy": policy}))
@@ -747,7 +814,7 @@ class C01(Prop):
                     res.count("bystander_" + cls)
                     if "BUDGET" in sallowed or sans.startswith("bad-op"):
                         res.broken.append(Broken("correspondence", "drv_c01.explore", f"{sans} for {sublines[si][cls]}"))
-                    elif svec not in sallowed:
+                    elif svec not in sallowed and not (unl and cls == "o2rem"):
                         res.broken.append(Broken("correspondence", "Rpc.explore vs real outcome vector (bystander class)",
                                                  f"class {cls}: real {svec} not in model set {sorted(sallowed)} (fault {scn['fault']} "
                                                  f"projected to {sub['fault']}, cfg {cfgbits})",
@@ -784,7 +851,25 @@ class C01(Prop):
         self._campaign(ctx, res, ctx.scale(110, 2500), ctx.scale(6, 12), cfgbits)
         self._sweeps(ctx, res, cfgbits)
         self._bursts(ctx, res)
+        self._fixed(ctx, res)
         return res
+
+    def _fixed(self, ctx: Ctx, res: Result):
+        """fixed corpus, first on every seed's evidence: one remote call per value kind the receiving side cannot handle, alone and
+        next to an ordinary call, without any other fault (oracle only)"""
+        seen = {f.signature for f in res.failures}
+        for k in ("unlarg", "unlres", "unlexc", "badarg", "badres", "bigres"):
+            for extra in ([], [{"id": 1, "place": "rem", "kind": "f", "blocking": True}]):
+                scn = normalise({"threads": [[{"id": 0, "place": "rem", "kind": k, "blocking": True}] + extra], "fault": "none",
+                                 "prelocked": False, "n": 1 + len(extra)})
+                for j in range(2):
+                    r = run_real(scn, f"fixed:{k}:{j}")
+                    res.note_case(("fixed", k, len(extra), r["vec"]))
+                    res.count("fixed_corpus_runs")
+                    for sig, summ in oracle(scn, r):
+                        if sig not in seen:
+                            seen.add(sig)
+                            res.failures.append(Failure(sig, f"{summ} | scenario {json.dumps(scn)}", {"scn": scn, "seed": f"fixed:{k}:{j}"}))
 
     def _bursts(self, ctx: Ctx, res: Result):
         """queue-depth boundaries: more un-waited calls than any finite bound declared in the live code (or a fixed large
